@@ -44,15 +44,26 @@ Definition val_datum (x : cdatum) : option val :=
 Definition val_sref (x : csref) : val :=
   match x with CSNative v => VVar 0 [v] | CSPlutus lang b => VVar (S lang) [VBytes b] end.
 
-Definition enc_output (o : coutput) : bytes :=
+(* the value of the TransactionOutput schema: map form, or the array form (SArrOpt) without / with the
+   trailing data hash (the optional item comes first in the value list of the second alternative) *)
+Definition val_output (o : coutput) : val :=
   if map_form (shape o) then
-    enc (TransactionOutput d)
-        (VAlt 1 (VStruct [Some (VBytes (co_addr o)); Some (val_value (co_coin o) (co_ma o));
-                          val_datum (co_datum o); option_map val_sref (co_sref o)]))
+    VAlt 1 (VStruct [Some (VBytes (co_addr o)); Some (val_value (co_coin o) (co_ma o));
+                     val_datum (co_datum o); option_map val_sref (co_sref o)])
+  else
+    match co_datum o with
+    | CDHash h => VAlt 0 (VAlt 1 (VList [VBytes h; VBytes (co_addr o); val_value (co_coin o) (co_ma o)]))
+    | _ => VAlt 0 (VAlt 0 (VList [VBytes (co_addr o); val_value (co_coin o) (co_ma o)]))
+    end.
+Definition enc_output (o : coutput) : bytes := enc (TransactionOutput d) (val_output o).
+
+(* the same bytes through the stand-alone schemas of the two array forms *)
+Definition enc_output_standalone (o : coutput) : bytes :=
+  if map_form (shape o) then enc_output o
   else
     match co_datum o with
     | CDHash h => enc TransactionOutputLegacyDH (VList [VBytes (co_addr o); val_value (co_coin o) (co_ma o); VBytes h])
-    | _ => enc (TransactionOutput d) (VAlt 0 (VList [VBytes (co_addr o); val_value (co_coin o) (co_ma o)]))
+    | _ => enc TransactionOutputLegacy (VList [VBytes (co_addr o); val_value (co_coin o) (co_ma o)])
     end.
 
 (* ---- lengths ---- *)
@@ -127,10 +138,10 @@ Proof.
   pose proof (len_value coin ma I) as LV.
   destruct dat as [|h|v]; destruct sr as [[nv|lang pb]|];
     try (destruct lang as [|[|[|lang]]]; [| | | cbn in Hl; lia]);
-    unfold enc_output, out_size, out_value_size, shape, map_form;
+    unfold enc_output, val_output, out_size, out_value_size, shape, map_form;
     cbn [co_addr co_coin co_ma co_datum co_sref o_addr o_coin o_ma o_datum o_sref
          shape_datum is_inline option_map is_some orb shape_sref val_datum val_sref];
-    unfold TransactionOutput, TransactionOutputLegacy, TransactionOutputLegacyDH, TransactionOutputMap, DataOption, ScriptRef,
+    unfold TransactionOutput, TransactionOutputArr, TransactionOutputMap, DataOption, ScriptRef,
            AddressS, H32, PlutusScriptBytes, choice, arr, mapS, var;
     cbn [cl sl kl al enc enc_cl enc_sl enc_kl enc_vl count_kl present is_empty_val slen klen app negb];
     fold Value; unfold enc_uint;
@@ -139,4 +150,20 @@ Proof.
     unfold data_option_size, sref_size, sref_inner, bytes_size;
     closed_heads; rewrite ?N.add_0_r, ?N.add_assoc; lia.
 Qed.
+
+(* the array forms inside TransactionOutput (SArrOpt) are byte for byte the stand-alone schemas
+   TransactionOutputLegacy / TransactionOutputLegacyDH *)
+Theorem enc_output_standalone_eq (o : coutput) : enc_output o = enc_output_standalone o.
+Proof.
+  unfold enc_output_standalone, enc_output, val_output.
+  destruct (map_form (shape o)); [reflexivity|].
+  destruct (co_datum o) as [|h|v];
+    unfold TransactionOutput, TransactionOutputArr, TransactionOutputLegacy, TransactionOutputLegacyDH, choice, arr;
+    cbn [cl sl enc enc_cl enc_sl slen app]; rewrite ?app_nil_r, <- ?app_assoc; reflexivity.
+Qed.
+
+Corollary out_size_is_standalone_schema_length (o : coutput) :
+  ids28 (co_ma o) -> hash_ok (co_datum o) -> lang_ok (co_sref o) ->
+  len (enc_output_standalone o) = out_size (shape o).
+Proof. intros. rewrite <- enc_output_standalone_eq. apply out_size_is_schema_length; assumption. Qed.
 End Tie.
